@@ -70,7 +70,7 @@ U_C02(zz) ==
              fm \in {"chooses", "lambda"}}
     \* a field selected at run time takes the class defaults (byte order) of the class it is selected in
     \cup {VDecl([C0 |-> Class([DefaultOpts EXCEPT !.endian = "little"], <<U1("t"),
-                     RefSelF("v", EF("t"), <<[key |-> 0, alt |-> IntF("", 2, FALSE, "default")], [key |-> 1, alt |-> IntF("", 3, TRUE, "default")]>>,
+                     RefSelF("v", EF("t"), <<[key |-> 0, alt |-> IntF("", 2, FALSE, "default")], [key |-> 1, alt |-> DataF("", SzConst(1))]>>,
                              fm, IntV(0)), U1("z")>>)], "full", 1, FALSE) : fm \in {"chooses", "lambda"}}
     \cup {VDecl([C0 |-> Class([DefaultOpts EXCEPT !.endian = "little"], <<IntF("a", 2, FALSE, "default"), RefF("s", "C1"), BitsF("h", 4), BitsF("l", 12)>>),
                  C1 |-> Class(DefaultOpts, <<IntF("x", 2, FALSE, "default"), DataF("d", SzMarker(<<0>>, FALSE, TRUE))>>)], "full", 1, FALSE)}
